@@ -10,6 +10,10 @@ SIM_ASSUME = [
     "cells of one Run call share a state-vector width (InitialiseStates sizes the state array from cell 0)",
 ]
 
+PROPS_ARR_RULE = ''
+PROPS_ARR_REAL = []
+PROPS_ARR_ASSUME = []
+
 PROPS = {
     "C04": {
         "engine": "cells", "level": "exploration", "race": False,
@@ -72,4 +76,30 @@ PROPS = {
                         "disk errors are not injected here (the property is silent; ow-sim exits); only delays", "instrumenter, testing/synctest, Go race detector for the -race runs"],
         "not_evaluated": ["external writer processes (-outputs m=file, -writer)"],
     },
+    "C01": {
+        "engine": "arrays", "level": "exploration", "race": False,
+        "quick": {"runs": 20000, "budget_s": 120},
+        "thorough": {"runs": 2000000, "budget_s": 1500},
+        "rule": "one run = one seeded history of 15-60 operations over a pool of views cut from 1-3 root arrays (1-4 dims, extents 1-6 incl. 1-wide dims, one of the 8 element types), applied in lock-step to a Go-backed root, a C-backed root on guard-paged mmap memory with canaries, and a reference model that keeps flat storage plus each view's explicit offset list: Slice chains up to depth 4 with steps 1-3, Get/Set, Get1/Set1/Apply1, Get2/Set2, Get3/Set3, Apply, ApplySlice, CopyFrom (six source layouts), Unroll, Reshape/ReshapeFast, Contiguous, Maximum/Minimum, Scale/AddTo/ApplyFunc1, integer index helpers; after every write the whole backing stores (Go slice, C buffer, canaries) are compared with the reference store; non-trivial = the history created at least one view besides the roots" + "; C01 reports failures of view reads and write footprints",
+        "real": ["data (all eight generated instantiations, arrayops, sliceops, arraysint)", "data/cdata (C-backed arrays)"], "stub": ["none (memory guards only)"], "assumptions": ["the reference model (flat storage + explicit offset lists per view) is the specification of a view", "overlapping source and destination in two-array operations are not generated (order of an overlapping copy is unspecified)", "step 0 and zero extents are not generated for Slice"],
+    },
+    "C02": {
+        "engine": "arrays", "level": "exploration", "race": False,
+        "quick": {"runs": 20000, "budget_s": 120},
+        "thorough": {"runs": 2000000, "budget_s": 1500},
+        "rule": "one run = one seeded history of 15-60 operations over a pool of views cut from 1-3 root arrays (1-4 dims, extents 1-6 incl. 1-wide dims, one of the 8 element types), applied in lock-step to a Go-backed root, a C-backed root on guard-paged mmap memory with canaries, and a reference model that keeps flat storage plus each view's explicit offset list: Slice chains up to depth 4 with steps 1-3, Get/Set, Get1/Set1/Apply1, Get2/Set2, Get3/Set3, Apply, ApplySlice, CopyFrom (six source layouts), Unroll, Reshape/ReshapeFast, Contiguous, Maximum/Minimum, Scale/AddTo/ApplyFunc1, integer index helpers; after every write the whole backing stores (Go slice, C buffer, canaries) are compared with the reference store; non-trivial = the history created at least one view besides the roots" + "; C02 reports failures of bulk operations, the contiguity predicate, reshape error contracts, aliasing of contiguous Go-backed views and the index helpers",
+        "real": ["data (all eight generated instantiations, arrayops, sliceops, arraysint)", "data/cdata (C-backed arrays)"], "stub": ["none (memory guards only)"], "assumptions": ["the reference model (flat storage + explicit offset lists per view) is the specification of a view", "overlapping source and destination in two-array operations are not generated (order of an overlapping copy is unspecified)", "step 0 and zero extents are not generated for Slice"],
+    },
+    "C03": {
+        "engine": "arrays", "level": "exploration", "race": False,
+        "quick": {"runs": 20000, "budget_s": 120},
+        "thorough": {"runs": 2000000, "budget_s": 1500},
+        "rule": PROPS_ARR_RULE + "; C03 reports every observable difference between the C-backed and the Go-backed array (values, storage, panics/faults on the guard page, overwritten canaries)",
+        "real": PROPS_ARR_REAL + ["libopenwater (C ABI, see cabi part)"], "stub": ["caller-owned C memory = anonymous mmap with a PROT_NONE guard page and canary slack"], "assumptions": PROPS_ARR_ASSUME,
+    },
 }
+
+PROPS_ARR_RULE = PROPS["C01"]["rule"].split("; C01 reports")[0]
+PROPS["C03"]["rule"] = PROPS_ARR_RULE + "; C03 reports every observable difference between the C-backed and the Go-backed array (values, storage, panics/faults on the guard page, overwritten canaries)"
+PROPS["C03"]["real"] = PROPS["C01"]["real"] + ["libopenwater (C ABI) - see the cabi part of this check"]
+PROPS["C03"]["assumptions"] = PROPS["C01"]["assumptions"]
